@@ -48,6 +48,11 @@ def gen_case(rng):
                           (G.REQ if rng.random() < 0.15 else G.gen_value(rng, 1)))})
       if interactive or not refmodel.suffix_matches(defined, cn):
         defined[cn] = True
+    elif r < 0.95:
+      # a constant looked up by a (partial) name: what it resolves to is a matter of the constants of that moment
+      cn = rng.choice(CONST_NAMES)
+      parts = cn.split('.')
+      pre.append({'op': 'macrolookup', 'name': '.'.join(parts[-rng.randint(1, len(parts)):])})
     else:
       interactive = rng.random() < 0.7
       pre.append({'op': 'interactive', 'on': interactive})
@@ -65,6 +70,13 @@ def gen_case(rng):
           {'op': 'prov'}, {'op': 'opprov'}]
   for _ in range(rng.randint(1, 3)):
     tail.append(G.gen_call(rng, rng.choice(regs), G.gen_enter(rng, rng.choice(scopes))))
+  for _ in range(rng.randint(1, 3)):   # names of constants, complete and partial, looked up (and defined) after the clear
+    cn = rng.choice(CONST_NAMES)
+    parts = cn.split('.')
+    tail.append({'op': 'macrolookup', 'name': '.'.join(parts[-rng.randint(1, len(parts)):])})
+    if rng.random() < 0.4:
+      tail.append({'op': 'constant', 'name': parts[-1], 'nameValid': True, 'val': {'o': 310 + rng.randint(0, 9)}})
+      tail.append({'op': 'constants'})
   b = G.gen_bind_attempt(rng, regs, scopes)
   tail += [b, {'op': 'config'}, {'op': 'operative'}, {'op': 'prov'}, {'op': 'opprov'}]
   # a surviving constant must still be the very same object: deliver it through a consuming call
